@@ -207,6 +207,34 @@ def exact_table(cap: Capture, job, rows: list, pareto_cols: list):
     return out
 
 
+def boundary_hits(cap: Capture, row: list) -> list:
+    """Validity objectives whose exact value at this assignment EQUALS the limit while the float32 value the code computes
+    (same lambdified function, float32 inputs) falls on the wrong side of it."""
+    import numpy as np
+    from accelforge import util
+
+    symbols = list(cap.kw["symbols"])
+    idx = {s: i for i, s in enumerate(symbols)}
+    hits = []
+    for o in cap.kw["objectives"]:
+        for lim, is_max in ((o.max_value, True), (o.min_value, False)):
+            if lim is None:
+                continue
+            v = X.compile_eval(to_sympy(o.formula, symbols), idx)(row)
+            if v != Fraction(lim):
+                continue
+            try:
+                fl = util._lambdify_type_check(symbols, o.formula)(
+                    **{str(s): np.array([x], dtype=util.NUMPY_FLOAT_TYPE) for s, x in zip(symbols, row)})
+                fl = float(np.asarray(fl).reshape(-1)[0])
+            except Exception:
+                continue
+            wrong = (fl > lim) if is_max else (fl < lim)
+            if wrong:
+                hits.append({"objective": o.name, "formula": str(o.formula), "exact_value": str(v), "limit": str(lim), "float32_value": repr(fl)})
+    return hits
+
+
 def pipeline_pareto_columns(df_columns, job) -> list:
     """The columns the pipeline's Pareto filter sees for a template without fused loops
     (make_pmappings_from_templates → PmappingDataframe(next_shared_loop_index=-1) → makepareto):
